@@ -641,7 +641,7 @@ func init() {
 		return []Tok{TW("got"), TIn(len(got)), TW("diff"), TIn(firstDiff(got, data)), TW("eof"), TBool(eof), TW("ms"), TIn(int(time.Since(t0) / time.Millisecond))}
 	})
 
-	// c14 <carrier> <n> <mode: app-closes | target-closes | overlap | cut | garbage>
+	// c14 <carrier> <n> <mode: app-closes | target-closes | overlap | cut | garbage | sessions-cut>
 	//   n logical connections are opened, used and finished (twice, to separate constant from linear growth); for cut / garbage the
 	//   physical session is then ended abruptly and the processor time of an idle second is measured
 	//  -> g <base> <after n> <after 2n> fd <base> <after> cpu <ms in an idle second> ok <connections that echoed>
@@ -761,6 +761,12 @@ func init() {
 			} else {
 				for i := 0; i < n; i++ {
 					one(i)
+					if mode == "sessions-cut" && relay != nil {
+						// every logical connection gets a physical session of its own, which is then lost (the carrier cut under both ends
+						// while they are idle): whatever the two ends held for that session must be given back
+						relay.cut()
+						time.Sleep(40 * time.Millisecond)
+					}
 				}
 			}
 		}
@@ -769,6 +775,17 @@ func init() {
 		phase()
 		g2 := settleGoroutines()
 		fd1 := fdCount()
+		if mode == "sessions-cut" {
+			// an end that sees its carrier end with an orderly end-of-stream leaves the session to the multiplexer's keep-alive, which gives
+			// up at its second 30 s tick without data: "reclaimed" is judged once that time has passed (the wait, up to 75 s, ends as soon
+			// as the footprint is back)
+			for i := 0; i < 150 && (g2 > g0+4 || fd1 > fd0+4); i++ {
+				time.Sleep(500 * time.Millisecond)
+				g2 = settleGoroutines()
+				fd1 = fdCount()
+			}
+			g1 = g2
+		}
 		cpu := int64(0)
 		if mode == "cut-open" || mode == "garbage-open" {
 			// n logical connections are OPEN (their targets idle) when the physical session ends abruptly: every one of them must be
